@@ -116,7 +116,8 @@ def gen_struct_case(r, tier, wide_ok=True):
     xs = gen_sample(r, kind, n)
     rng_ = max(xs) - min(xs)
     # bandwidth from range/1000 to 100*range, log-uniform
-    f = 10 ** (r.uniform(-3, 2) if r.random() < 0.25 else r.uniform(-1.8, 2))
+    u = r.random()
+    f = 10 ** (r.uniform(-3, -1.8) if u < 0.12 else r.uniform(-1.8, 0) if u < 0.7 else r.uniform(0, 2))
     h = dyadic_near(rng_ * Fraction(f).limit_denominator(10 ** 6))
     return {"sample": xs, "h": h, "kind": kind}
 
@@ -441,7 +442,7 @@ def run(rep: C.Report, tier: str) -> int:
     goal_case = {}
     n_pdf = n_cdf = 0
     max_pdf = 100 if quick else 900
-    max_cdf = 20 if quick else 250
+    max_cdf = 14 if quick else 200
     for k, (case, obs) in enumerate(zip(cases, obs_l)):
         if obs["status"] != "ok" or len(case["sample"]) > 30 or obs["n"] > 12:
             continue
@@ -459,7 +460,7 @@ def run(rep: C.Report, tier: str) -> int:
             goals.append((gid, st, "kde_pdf_goal"))
             goal_case[gid] = (k, i)
             n_pdf += 1
-        if len(case["sample"]) <= 14 and n_cdf < max_cdf:
+        if len(case["sample"]) <= 10 and n_cdf < max_cdf:
             # integral enclosures get expensive for |z| >> 10: stay within 6 h of the data
             lo, hi, h = min(case["sample"]), max(case["sample"]), case["h"]
             near = [i for i in pts[2:] if lo - 6 * h <= obs["points"][i] <= hi + 6 * h]
@@ -467,7 +468,7 @@ def run(rep: C.Report, tier: str) -> int:
                 i = near[0]
                 v = C.frac(obs["cdf"][i])
                 st = (f"Rabs (cdf_code_at {obs['n']} s_{k} {C.cq(case['h'])} {C.cq(obs['points'][i])} - "
-                      f"{C.cR(v)}) <= {C.cR(Fraction(1, 10 ** 9))}")
+                      f"{C.cR(v)}) <= {C.cR(Fraction(1, 10 ** 8))}")
                 gid = f"cdf_{k}_{i}"
                 goals.append((gid, st, "kde_cdf_goal"))
                 goal_case[gid] = (k, i)
@@ -477,7 +478,7 @@ def run(rep: C.Report, tier: str) -> int:
     goals.sort(key=lambda g: g[0].startswith("cdf"))
     nchunks = max(1, (len(goals) + 9) // 10)
     goals = [g for c in range(nchunks) for g in goals[c::nchunks]]
-    fut_vals = pool.submit(I.check_goals, PROP, "values", goals, pre, "", (len(goals) + nchunks - 1) // nchunks,
+    fut_vals = pool.submit(I.check_goals, PROP, "values", goals, pre, "", max(1, (len(goals) + nchunks - 1) // nchunks),
                            8 if quick else 14, 600)
 
     # ---------- 3. bandwidth modes: goals ----------
